@@ -206,4 +206,97 @@ theorem call_counted_once_before_loop (fuel : Nat) (cfg : Cfg) (h : Nat) (c : Va
       else tramp fuel cfg h c args 0 { st with calls := st.calls + 1 } := by
   simp [callUser, he, hl]
 
+/-! ## 3. The optimisation is semantically transparent
+
+`cT` / `cF`: no limits configured (`depthLimit = callLimit = recLimit = none`), tco on / off.
+`FrameOk fr`: the recursion cell of the frame, if any, holds a closure (what `from_template` puts
+there; true of every frame the interpreter builds). -/
+
+/-- More fuel never changes an answer: whatever `n` units of fuel answer (anything but "out of
+fuel"), `m ≥ n` units answer too — for expressions, calls, the trampoline and whole programs. -/
+theorem fuel_monotone (cfg : Cfg) (n m : Nat) (hle : n ≤ m) :
+    (∀ fr e tail st, (eval n cfg fr e tail st).1 ≠ .oof → eval m cfg fr e tail st = eval n cfg fr e tail st) ∧
+    (∀ h c args st, (callUser n cfg h c args st).1 ≠ .oof → callUser m cfg h c args st = callUser n cfg h c args st) ∧
+    (∀ h c args rec st, (tramp n cfg h c args rec st).1 ≠ .oof →
+        tramp m cfg h c args rec st = tramp n cfg h c args rec st) ∧
+    (∀ ds, (runProgram n cfg ds).1 ≠ .error .oof → runProgram m cfg ds = runProgram n cfg ds) := by
+  have H := fuelLe (cfg := cfg) hle
+  have oof : ∀ r : Res, r ≠ .oof → r.isOof = false := by intro r; cases r <;> simp
+  refine ⟨?_, ?_, ?_, ?_⟩
+  · intro fr e tail st h; exact H.eval _ _ _ _ (oof _ h)
+  · intro h c args st hh; exact H.callUser _ _ _ _ (oof _ hh)
+  · intro h c args rec st hh; exact H.tramp _ _ _ _ _ (oof _ hh)
+  · intro ds h
+    refine H.evalDecls _ _ _ ?_
+    revert h; unfold runProgram
+    rcases evalDecls n cfg { env := [], self := none, height := 0 } ds {} with ⟨x, s⟩
+    cases x with
+    | ok _ => simp
+    | error r => cases r <;> simp
+
+/-- Reference ⟶ optimised, with the very same fuel. Whatever the reference semantics (tco off: a
+self-call is an ordinary call) answers — a value, an error value, a stuck state; the output and
+counters in `st'` — the optimised semantics answers too:
+for an expression that is not offered the tail slot, for a call of a function value, for
+`eval_func_with_values`, for the trampoline (whatever the heights and the recursion counters the two
+runs start from) and for a whole program. -/
+theorem tco_transparent_off_to_on (n : Nat) :
+    (∀ fr e st r st', FrameOk fr → eval n cF fr e false st = (r, st') → r ≠ .oof →
+        eval n cT fr e false st = (r, st')) ∧
+    (∀ fr c args tail st r st', FrameOk fr → callVal n cF fr c args tail st = (r, st') → r ≠ .oof →
+        callVal n cT fr c args tail st = (r, st')) ∧
+    (∀ h h2 c args st r st', callUser n cF h c args st = (r, st') → r ≠ .oof →
+        callUser n cT h2 c args st = (r, st')) ∧
+    (∀ h h2 c args rec rec2 st r st', tramp n cF h c args rec st = (r, st') → r ≠ .oof →
+        tramp n cT h2 c args rec2 st = (r, st')) ∧
+    (∀ ds fr st', runProgram n cF ds = (.ok fr, st') → runProgram n cT ds = (.ok fr, st')) ∧
+    (∀ ds r st', runProgram n cF ds = (.error r, st') → r ≠ .oof → runProgram n cT ds = (.error r, st')) := by
+  have H := simAt n
+  have oof : ∀ r : Res, r ≠ .oof → r.isOof = false := by intro r; cases r <;> simp
+  have ok0 : FrameOk { env := [], self := none, height := 0 } := by intro _ _ h; cases h
+  refine ⟨?_, ?_, ?_, ?_, ?_, ?_⟩
+  · intro fr e st r st' hf h hr
+    have := H.evalF fr fr.height e st hf (by rw [h]; exact oof r hr)
+    rw [← h]; exact this
+  · intro fr c args tail st r st' hf h hr
+    have := H.callVal fr fr.height c args tail st hf (by rw [h]; exact oof r hr)
+    rw [← h]; exact this
+  · intro h h2 c args st r st' hh hr
+    rw [← hh]; exact H.callUser h h2 c args st (by rw [hh]; exact oof r hr)
+  · intro h h2 c args rec rec2 st r st' hh hr
+    rw [← hh]; exact H.tramp h h2 c args rec rec2 st (by rw [hh]; exact oof r hr)
+  · intro ds fr st' h
+    unfold runProgram at h ⊢
+    have := H.evalDecls _ 0 ds {} ok0 (by rw [h]; rfl)
+    rw [h] at this
+    have hh := (evalDecls_frame _ _ _ _ _ _ _ h).2
+    rw [show ({ env := [], self := none, height := 0 } : Frame).atHeight 0 = { env := [], self := none, height := 0 } from rfl] at this
+    rw [this, setH_ok]
+    simp only at hh
+    rw [← hh]; rfl
+  · intro ds r st' h hr
+    unfold runProgram at h ⊢
+    have := H.evalDecls _ 0 ds {} ok0 (by rw [h]; exact oof r hr)
+    rw [h] at this
+    exact this
+
+/-- The same with the tail slot offered (the invariant the trampoline maintains): the optimised
+run either gives the reference answer itself, or it hands back a tail call `.tail args` at a state
+`st1` — and then the reference answer is what the reference trampoline, started on `args` at `st1`
+for the function in the frame's recursion cell, returns (with less fuel). -/
+theorem tco_tail_call_is_the_call (n : Nat) (fr : Frame) (e : Expr) (st : St) (r : Res) (st' : St)
+    (hf : FrameOk fr) (h : eval n cF fr e true st = (r, st')) (hr : r ≠ .oof) :
+    eval n cT fr e true st = (r, st') ∨
+    ∃ name c args st1 k, fr.self = some (name, c) ∧ eval n cT fr e true st = (.tail args, st1) ∧
+      k < n ∧ tramp k cF fr.height c args 0 st1 = (r, st') := by
+  have oof : r.isOof = false := by cases r <;> simp at hr ⊢
+  rcases (simAt n).eval fr fr.height e true st hf (by rw [h]; exact oof) with he | ⟨_, name, c, args, st1, hs, hT, k, hk, hF⟩
+  · left; rw [← h]; exact he
+  · right; exact ⟨name, c, args, st1, k, hs, hT, hk, by rw [hF, h]⟩
+
+/-- `f(3, 0)` for the accumulator-style sum: both semantics give 6 -/
+example : callUser 40 cF 0 sumClos [.int 3, .int 0] {} = (.val (.int 6), {}) ∧
+    callUser 40 cT 0 sumClos [.int 3, .int 0] {} = (.val (.int 6), {}) := by
+  constructor <;> core_run
+
 end XrayModel.C07
